@@ -439,5 +439,9 @@ def shard(ctx: Ctx):
     for k, T in enumerate(PATTERNS):
         if k % ctx.nshards == ctx.shard:
             ctx.add(evaluate(T, ctx, 'patterns'))
+    exprs = gen.EXPRS + gen.EXPR_SPECIAL + ['(getdate())', '(a)', '()', '(price + 1) * (qty + 2)', '((a) + (b))', '(a))', '((a)']
+    for k, T in enumerate(exprs):
+        if k % ctx.nshards == ctx.shard and '`' not in T:
+            ctx.add(evaluate(T, ctx, 'expressions'))
     hyp_run(ctx, 'text', texts(), lambda T: evaluate(T, ctx, 'sampled'), 10 if quick else 400)
     hyp_run(ctx, 'indented', indented_texts(), lambda T: evaluate(T, ctx, 'indented'), 10 if quick else 400)
